@@ -160,7 +160,10 @@ func (t Type) ImplementedVariant() string {
 		return ""
 	}
 
-	return t.Hints[HintImplementsVariant].(string)
+	// hints can be set by users: the value isn't necessarily a string
+	variant, _ := t.Hints[HintImplementsVariant].(string)
+
+	return variant
 }
 
 func (t Type) IsDataqueryVariant() bool {
@@ -168,7 +171,7 @@ func (t Type) IsDataqueryVariant() bool {
 		return false
 	}
 
-	return t.Hints[HintImplementsVariant].(string) == string(SchemaVariantDataQuery)
+	return t.ImplementedVariant() == string(SchemaVariantDataQuery)
 }
 
 func (t Type) HasHint(hintName string) bool {
